@@ -9,6 +9,7 @@ from fractions import Fraction
 from vf.runner import use_repo, ToolError, h64
 from vf.refproto import codec as ref
 from vf.refproto import position as refpos
+from vf import explore, interleave
 
 LEVEL = 'exploration'
 RULE = (
@@ -31,7 +32,10 @@ RULE = (
     'exponent x 8 mantissa patterns as bit patterns plus 64 seed-derived '
     'patterns; String: every UTF-8 width (boundary code points of each '
     'width) padded to byte lengths B-1, B, B+1 for B in 0, 1, 127, 128, '
-    '16383, 16384 (thorough: also 32767 characters); Var/Short-prefixed byte '
+    '16383, 16384, plus strings within the 32767-character limit whose UTF-8 '
+    'form exceeds 32767 bytes (16384 two-byte, 10923 three-byte, 8192 '
+    'four-byte, 32767 three-byte characters; thorough: 32767 characters '
+    'of every width); Var/Short-prefixed byte '
     'arrays at lengths 0, 1, 2, 126..129, 255..257, 16383..16385, 32766, '
     '32767 (VarInt prefix also 32768, 65535, 65536; thorough: 2097151 and '
     '2097152); UUID boundary '
@@ -48,7 +52,14 @@ RULE = (
     'repetition per type (distinct by construction); prefixes are '
     'de-duplicated per type.  '
     'At most 3 failing inputs (the smallest) are reported per failure class; '
-    'the total per class is in the evidence.')
+    'the total per class is in the evidence.  Concurrency: every pair of '
+    '21 encode/decode operations (VarInt, VarLong, String, byte array, '
+    'arrays, UUID, Angle, FixedPoint, Position, Long, Double; sends and '
+    'reads) is run by two threads under the controlled scheduler with every '
+    'source line of types/basic.py, types/utility.py, types/enum.py and '
+    'packet_buffer.py a scheduling point, all schedules with at most 1 '
+    '(thorough: 2) preemptions; each thread must observe what the operation '
+    'gives alone, also afterwards.')
 ASSUMPTIONS = [
     'non-termination of an encoder is judged by a horizon of 2,000,000 traced '
     'line events per send (the largest enumerated case, a 32767-element '
@@ -909,8 +920,12 @@ def string_values(thorough):
     mixed = 'a\xe9\u20ac\U0001f600\x7f\u07ff\uffff\U0010ffff'     # 20 bytes
     for L in (120, 140, 16380, 16400):
         out.add(mixed * (L // 20))
+    # the protocol's limit of 32767 is in characters: in-domain strings
+    # whose UTF-8 form is longer than 32767 bytes
+    out |= {'\xe9' * 16384, '\u20ac' * 10923, '\U0001f600' * 8192,
+            '\u20ac' * 32767}
     if thorough:
-        out |= {'a' * 32767, '\u20ac' * 32767, '\xe9' * 32767}
+        out |= {'a' * 32767, '\xe9' * 32767, '\U0001f600' * 32767}
     return sorted(out, key=lambda s: (len(s), s))
 
 
@@ -1293,12 +1308,142 @@ REQUIRED_CLASSES = [
 ]
 
 
+# -- concurrent encoders / decoders ---------------------------------------------
+# The codecs are meant to be pure: nothing two calls share.  Every pair of
+# operations below is run by two threads under the controlled scheduler with
+# every source line of the wire-type modules a scheduling point; in every
+# schedule each thread must observe exactly what it observes when run alone
+# (and the sequential results are the ones judged against the reference in
+# the other sections).
+
+RACE_MODULES = ('minecraft.networking.types.basic',
+                'minecraft.networking.types.utility',
+                'minecraft.networking.types.enum',
+                'minecraft.networking.packets.packet_buffer')
+RACE_OPS = [
+    ('send', 'VarInt', 16702650), ('send', 'VarInt', 300),
+    ('send', 'VarInt', 1), ('send', 'VarLong', (1 << 40) + 3),
+    ('send', 'String', 'x' * 300), ('send', 'String', 'a\xe9\u20ac'),
+    ('send', 'VarIntPrefixedByteArray', 'hex:' + pattern(200).hex()),
+    ('send', ('PrefixedArray', 'VarInt', 'Short'), [1, -2, 300]),
+    ('send', ('PrefixedArray', 'Short', 'String'), ['ab', '', 'c' * 130]),
+    ('send', 'UUID', '01234567-89ab-cdef-0123-456789abcdef'),
+    ('send', 'Angle', 90.0), ('send', ('FixedPoint', 'Integer', None), 1.5),
+    ('send', 'Position', [1200, 65, -420]), ('send', 'Long', -2),
+    ('send', 'Double', 0.1),
+    ('read', 'VarInt', 'hex:bab9fb07'), ('read', 'VarLong',
+                                         'hex:8380808080200a'),
+    ('read', 'String', 'hex:' + (b'\xac\x02' + b'y' * 300).hex()),
+    ('read', ('PrefixedArray', 'VarInt', 'String'),
+     'hex:03026162000163'),
+    ('read', 'UUID', 'hex:' + bytes(range(16)).hex()),
+    ('read', 'Position', 'hex:00012c3fffe5c041'),
+]
+
+
+def race_op(op):
+    kind, spec, arg = op
+    spec = tup(spec)
+    T = build(spec)
+    cctx = context(None)
+    mode = 'ctx' if needs_ctx(spec) else 'plain'
+    if isinstance(arg, str) and arg.startswith('hex:'):
+        arg = bytes.fromhex(arg[4:])
+    if spec == 'Position':
+        arg = tuple(arg) if kind == 'send' else arg
+    PB = env().PacketBuffer
+
+    def send():
+        buf = PB()
+        if mode == 'ctx':
+            T.send_with_context(arg, buf, cctx)
+        else:
+            T.send(arg, buf)
+        return buf.get_writable().hex()
+
+    def read():
+        buf = PB()
+        buf.send(arg + SENT)
+        buf.reset_cursor()
+        got = T.read_with_context(buf, cctx) if mode == 'ctx' else T.read(buf)
+        return repr(got), len(buf.read())
+    return send if kind == 'send' else read
+
+
+def race_body(W, params):
+    env()
+    ops = [race_op(o) for o in params['ops']]
+    alone = []
+    for f in ops:
+        try:
+            alone.append(('ok', f()))
+        except Exception as e:
+            alone.append(('exc', '%s: %s' % (type(e).__name__, e)))
+    got = interleave.race(W, ops)
+    again = []
+    for f in ops:
+        try:
+            again.append(('ok', f()))
+        except Exception as e:
+            again.append(('exc', '%s: %s' % (type(e).__name__, e)))
+    viol = []
+    for i, o in enumerate(params['ops']):
+        what = '%s %s' % (o[0], name(tup(o[1])))
+        if got[i] != alone[i]:
+            viol.append(('concurrent %s differs' % what,
+                         '%s(%s) run concurrently with %s %s gave %s; alone '
+                         'it gives %s' % (what, short(o[2]),
+                                          params['ops'][1 - i][0],
+                                          name(tup(params['ops'][1 - i][1])),
+                                          short(got[i]), short(alone[i]))))
+        if again[i] != alone[i]:
+            viol.append(('after concurrent use %s differs' % what,
+                         '%s(%s) gives %s after the concurrent run, %s '
+                         'before' % (what, short(o[2]), short(again[i]),
+                                     short(alone[i]))))
+    return {'outcome': tuple(got), 'violations': viol}
+
+
+def race_factory(params):
+    def scenario(prefix, expect, visited=None, budget=0):
+        return interleave.run(lambda W: race_body(W, params), prefix, expect,
+                              budget, modules=RACE_MODULES)
+    return scenario
+
+
+def run_races(ctx, ex):
+    bound = 2 if ctx.thorough else 1
+    pairs = [(i, j) for i in range(len(RACE_OPS))
+             for j in range(i + 1, len(RACE_OPS))]
+    execs = 0
+    for i, j in pairs:
+        res = ex.explore(ctx, race_factory,
+                         {'ops': [list(RACE_OPS[i]), list(RACE_OPS[j])]},
+                         bound, label='race ')
+        execs += res.execs
+        ctx.cls('concurrent pair of codec calls, all schedules')
+    ctx.extra['concurrent'] = {
+        'operations': len(RACE_OPS), 'pairs': len(pairs),
+        'preemption_bound': bound, 'schedules_executed': execs,
+        'points': 'every source line of ' + ', '.join(RACE_MODULES)}
+
+
 def run(ctx):
     use_repo()
+    ex = explore.Explorer(memo=False)    # forks its workers before anything runs
+    try:
+        _run(ctx, ex)
+    finally:
+        ex.close()
+
+
+def _run(ctx, ex):
     env()
     tasks = build_tasks(ctx)
     ctx.pmap(worker, tasks)
     report(ctx)
+    if not ctx.violations:
+        run_races(ctx, ex)
     for c in REQUIRED_CLASSES:
         if not ctx.classes.get(c):
             raise ToolError('vacuity guard: class %r was never exercised' % c)
@@ -1321,6 +1466,16 @@ def replay(ctx, case):
     env()
     R = Rec(ctx, direct=True)
     ctx.count()
+    if 'choices' in case:
+        x = race_factory(case['params'])(list(case['choices']), None, None,
+                                         'replay')
+        res = x.result or {}
+        viol = list(res.get('violations', ()))
+        if x.failure is not None:
+            viol.append((x.failure[0], '%s: %s' % x.failure))
+        for key, what in viol:
+            ctx.violation('race %s' % key, what, case)
+        return
     op = case['op']
     spec = tup(case.get('spec'))
     if op == 'value':
